@@ -1,4 +1,267 @@
 package main
 
+import (
+	"bytes"
+	"go/ast"
+	"go/printer"
+	"go/token"
+	"os"
+	"path/filepath"
+	"strconv"
+	"strings"
+)
+
+func c18Src(rel string, e ast.Node) string {
+	var b bytes.Buffer
+	if err := printer.Fprint(&b, load(rel).fset, e); err != nil {
+		fail("print: %v", err)
+	}
+	return b.String()
+}
+
+// c18FieldAssigns: `lhs = rhs` of every assignment in fd whose lhs ends in .<field>, source order
+func c18FieldAssigns(rel string, fd *ast.FuncDecl, field string) []string {
+	var res []string
+	ast.Inspect(fd.Body, func(n ast.Node) bool {
+		if a, ok := n.(*ast.AssignStmt); ok && a.Tok == token.ASSIGN && len(a.Lhs) == 1 && len(a.Rhs) == 1 {
+			if s, ok := a.Lhs[0].(*ast.SelectorExpr); ok && s.Sel.Name == field {
+				res = append(res, c18Src(rel, a.Lhs[0])+" = "+c18Src(rel, a.Rhs[0]))
+			}
+		}
+		return true
+	})
+	return res
+}
+
 func factsC18() {
+	back := "pkg/converters/ingress/annotations/backend.go"
+
+	// ---- setAuthExternal: deny first, cleared once, after the last early return
+	sa := methodDecl(back, "updater", "setAuthExternal")
+	if len(sa.Body.List) == 0 {
+		fail("setAuthExternal: empty body")
+	}
+	addStr("c18SetAuthFirstStmt", quote(c18Src(back, sa.Body.List[0])), "backend.go setAuthExternal: first statement")
+	addStrList("c18SetAuthDenyAssigns", c18FieldAssigns(back, sa, "AlwaysDeny"), "backend.go setAuthExternal: assignments to AlwaysDeny, source order")
+	var clearPos token.Pos
+	ast.Inspect(sa.Body, func(n ast.Node) bool {
+		if a, ok := n.(*ast.AssignStmt); ok && len(a.Lhs) == 1 && len(a.Rhs) == 1 {
+			if s, ok := a.Lhs[0].(*ast.SelectorExpr); ok && s.Sel.Name == "AlwaysDeny" && c18Src(back, a.Rhs[0]) == "false" {
+				clearPos = a.Pos()
+			}
+		}
+		return true
+	})
+	before, after := 0, 0
+	ast.Inspect(sa.Body, func(n ast.Node) bool {
+		if r, ok := n.(*ast.ReturnStmt); ok {
+			if clearPos != token.NoPos && r.Pos() > clearPos {
+				after++
+			} else {
+				before++
+			}
+		}
+		return true
+	})
+	addInt("c18SetAuthReturnsBeforeClear", itoa(before), "backend.go setAuthExternal: return statements before `AlwaysDeny = false`")
+	addInt("c18SetAuthReturnsAfterClear", itoa(after), "backend.go setAuthExternal: return statements after `AlwaysDeny = false`")
+	addStrList("c18SetAuthAcquireArgs", callArgsText(back, sa, "AcquireAuthBackendName"), "backend.go setAuthExternal: arguments of AcquireAuthBackendName")
+	addStrList("c18SetAuthCleanup", c18Calls(back, sa, []string{"BuildUsedAuthBackends", "RemoveAuthBackendExcept"}), "backend.go setAuthExternal: the clean-up calls between the two acquire attempts")
+
+	// ---- buildBackendAuthExternal / buildHostAuthExternal: the guards
+	ba := methodDecl(back, "updater", "buildBackendAuthExternal")
+	addStrList("c18BackendAuthConds", c18Cmps(back, ba), "backend.go buildBackendAuthExternal: comparisons")
+	hostf := "pkg/converters/ingress/annotations/host.go"
+	ha := methodDecl(hostf, "updater", "buildHostAuthExternal")
+	addStrList("c18HostAuthConds", c18Cmps(hostf, ha), "host.go buildHostAuthExternal: comparisons")
+	addStrList("c18HostAuthReads", c18GetReceivers(hostf, ha), "host.go buildHostAuthExternal: receivers of .Get(...)")
+
+	// ---- buildBackendOAuth: which auth-url the precedence test reads and what the branch does
+	oa := methodDecl(back, "updater", "buildBackendOAuth")
+	reads := ""
+	var assigns []string
+	ast.Inspect(oa.Body, func(n ast.Node) bool {
+		ifs, ok := n.(*ast.IfStmt)
+		if !ok {
+			return true
+		}
+		hit := false
+		ast.Inspect(ifs, func(m ast.Node) bool {
+			if m == ifs.Body || m == ifs.Else {
+				return false
+			}
+			if c, ok := m.(*ast.CallExpr); ok {
+				if s, ok := c.Fun.(*ast.SelectorExpr); ok && s.Sel.Name == "Get" && len(c.Args) == 1 && c18Src(back, c.Args[0]) == "ingtypes.BackAuthURL" {
+					reads = c18Src(back, s.X)
+					hit = true
+				}
+			}
+			return true
+		})
+		if hit {
+			ast.Inspect(ifs.Body, func(m ast.Node) bool {
+				if a, ok := m.(*ast.AssignStmt); ok && len(a.Lhs) == 1 && len(a.Rhs) == 1 {
+					assigns = append(assigns, c18Src(back, a.Lhs[0])+" "+a.Tok.String()+" "+c18Src(back, a.Rhs[0]))
+				}
+				return true
+			})
+			return false
+		}
+		return true
+	})
+	if reads == "" {
+		// the test may read the value before the `if`: look for any Get(BackAuthURL) in the function
+		rs := c18GetReceiversOf(back, oa, "ingtypes.BackAuthURL")
+		if len(rs) == 1 {
+			reads = rs[0]
+		}
+	}
+	addStr("c18OAuthPrecedenceReads", quote(reads), "backend.go buildBackendOAuth: receiver of .Get(ingtypes.BackAuthURL) in the precedence test")
+	addStrList("c18OAuthPrecedenceAssigns", assigns, "backend.go buildBackendOAuth: assignments inside the precedence branch")
+	addStrList("c18OAuthDenyAssigns", c18FieldAssigns(back, oa, "AlwaysDeny"), "backend.go buildBackendOAuth: assignments to AlwaysDeny, source order")
+
+	// ---- UpdateHostConfig before UpdateBackendConfig; auth-url before oauth
+	upd := "pkg/converters/ingress/annotations/updater.go"
+	var builders []string
+	for _, c := range methodCalls(upd, "updater", "UpdateBackendConfig") {
+		if c == "c.buildBackendAuthExternal" || c == "c.buildBackendOAuth" {
+			builders = append(builders, c)
+		}
+	}
+	addStrList("c18BackendBuilderOrder", builders, "updater.go UpdateBackendConfig: order of the two authentication builders")
+	ing := "pkg/converters/ingress/ingress.go"
+	var sync []string
+	for _, c := range methodCalls(ing, "converter", "fullSyncAnnotations") {
+		if c == "c.updater.UpdateHostConfig" || c == "c.updater.UpdateBackendConfig" {
+			sync = append(sync, c)
+		}
+	}
+	addStrList("c18FullSyncOrder", sync, "ingress.go fullSyncAnnotations: hosts are updated before backends")
+
+	// ---- BuildUsedAuthBackends: which records count as users of an auth proxy name
+	bks := "pkg/haproxy/types/backends.go"
+	ub := methodDecl(bks, "Backends", "BuildUsedAuthBackends")
+	var usedReads []string
+	ast.Inspect(ub.Body, func(n ast.Node) bool {
+		if s, ok := n.(*ast.SelectorExpr); ok && s.Sel.Name == "AuthBackendName" {
+			usedReads = append(usedReads, c18Src(bks, s))
+		}
+		return true
+	})
+	addStrList("c18UsedAuthReads", usedReads, "backends.go BuildUsedAuthBackends: AuthBackendName reads")
+
+	// ---- AcquireAuthBackendName
+	fr := "pkg/haproxy/types/frontend.go"
+	aq := methodDecl(fr, "Frontend", "AcquireAuthBackendName")
+	addStrList("c18AcquireConds", c18Cmps(fr, aq), "frontend.go AcquireAuthBackendName: comparisons, source order")
+	addStrList("c18AcquireStrings", strLits(fr, "AcquireAuthBackendName"), "frontend.go AcquireAuthBackendName: string literals")
+
+	// ---- template: how the frontend rule is scoped, and the shape of the authExternal block
+	tmpl, err := os.ReadFile(filepath.Join(repo, "rootfs/etc/templates/haproxy/haproxy.tmpl"))
+	if err != nil {
+		fail("template: %v", err)
+	}
+	var frontFmt []string
+	for _, l := range strings.Split(string(tmpl), "\n") {
+		if strings.Contains(l, `template "authExternal" map $path.AuthExt`) {
+			i := strings.Index(l, `(printf "`)
+			j := strings.LastIndex(l, `" $path.Link.HAMatch $path.Link.Key)`)
+			if i < 0 || j < i {
+				fail("template: frontend authExternal call has an unexpected shape: %s", l)
+			}
+			frontFmt = append(frontFmt, l[i+len(`(printf "`):j])
+		}
+	}
+	addStrList("c18FrontCondFormat", frontFmt, "haproxy.tmpl authExternalFrontend: printf format of the scope condition (args HAMatch, Key)")
+	var block []string
+	in := false
+	for _, l := range strings.Split(string(tmpl), "\n") {
+		if strings.HasPrefix(l, `{{- define "authExternal" }}`) {
+			in = true
+			continue
+		}
+		if in && strings.HasPrefix(l, `{{- define `) {
+			break
+		}
+		if in {
+			t := strings.TrimSpace(l)
+			if strings.HasPrefix(t, "{{- if ") || strings.HasPrefix(t, "{{- else") || strings.HasPrefix(t, "http-request ") {
+				block = append(block, t)
+			}
+		}
+	}
+	addStrList("c18AuthExternalBlock", block, "haproxy.tmpl authExternal: control lines and http-request lines, source order")
+}
+
+func quote(s string) string { return strconv.Quote(s) }
+
+func callArgsText(rel string, fd *ast.FuncDecl, method string) []string {
+	var res []string
+	ast.Inspect(fd.Body, func(n ast.Node) bool {
+		if c, ok := n.(*ast.CallExpr); ok {
+			if s, ok := c.Fun.(*ast.SelectorExpr); ok && s.Sel.Name == method {
+				var a []string
+				for _, x := range c.Args {
+					a = append(a, c18Src(rel, x))
+				}
+				res = append(res, strings.Join(a, ", "))
+			}
+		}
+		return true
+	})
+	return res
+}
+
+// c18Calls: the selector calls whose method name is in names, source order, as `recv.Method(args)`
+func c18Calls(rel string, fd *ast.FuncDecl, names []string) []string {
+	var res []string
+	ast.Inspect(fd.Body, func(n ast.Node) bool {
+		if c, ok := n.(*ast.CallExpr); ok {
+			if s, ok := c.Fun.(*ast.SelectorExpr); ok && has(names, s.Sel.Name) {
+				res = append(res, c18Src(rel, c))
+			}
+		}
+		return true
+	})
+	return res
+}
+
+func c18Cmps(rel string, fd *ast.FuncDecl) []string {
+	var res []string
+	ast.Inspect(fd.Body, func(n ast.Node) bool {
+		if b, ok := n.(*ast.BinaryExpr); ok {
+			switch b.Op {
+			case token.EQL, token.NEQ, token.LSS, token.GTR, token.LEQ, token.GEQ:
+				res = append(res, c18Src(rel, b))
+			}
+		}
+		return true
+	})
+	return res
+}
+
+func c18GetReceivers(rel string, fd *ast.FuncDecl) []string {
+	var res []string
+	ast.Inspect(fd.Body, func(n ast.Node) bool {
+		if c, ok := n.(*ast.CallExpr); ok {
+			if s, ok := c.Fun.(*ast.SelectorExpr); ok && s.Sel.Name == "Get" && len(c.Args) == 1 {
+				res = append(res, c18Src(rel, s.X)+".Get("+c18Src(rel, c.Args[0])+")")
+			}
+		}
+		return true
+	})
+	return res
+}
+
+func c18GetReceiversOf(rel string, fd *ast.FuncDecl, arg string) []string {
+	var res []string
+	ast.Inspect(fd.Body, func(n ast.Node) bool {
+		if c, ok := n.(*ast.CallExpr); ok {
+			if s, ok := c.Fun.(*ast.SelectorExpr); ok && s.Sel.Name == "Get" && len(c.Args) == 1 && c18Src(rel, c.Args[0]) == arg {
+				res = append(res, c18Src(rel, s.X))
+			}
+		}
+		return true
+	})
+	return res
 }
